@@ -75,6 +75,7 @@ type Contract struct {
 	Fields   map[string][]string // classification of the receiver struct's fields by kind (reset contracts)
 	Records  []Clause            // ghost instrumentation: assumed after calls, not checked against the body
 	Stable   []string            // package-level variables assumed not to be modified by uncontracted calls
+	Stateless bool               // result is a function of the argument values alone
 	Wraps    bool                // signed 64-bit +,- wrap around exactly (integer mode)
 	Dead     map[string]bool     // returns claimed unreachable ("ret6")
 	TypeInv  []TypeInvClause     // objinv T [label] expr-over-self: assumed wherever a field of a *T that the clause mentions is addressed
@@ -280,6 +281,10 @@ func (cs *ContractSet) parseContractFile(path, pkgPath string, trusted bool) err
 				}
 			case "replay":
 				cur.Replay = rest
+			case "stateless":
+				// pure, and the result depends on the arguments only (not on memory): plain data in, plain data out
+				cur.Pure = true
+				cur.Stateless = true
 			case "wraps":
 				// integer mode, but signed 64-bit + and - are modelled exactly (two's complement wrap-around)
 				cur.Wraps = true
